@@ -27,7 +27,7 @@ var otherVals = []string{"", "1", "42", "50%", "rtl", "en", "a b", "nofollow", "
 
 var specials = []string{"<!-- c -->", "<!--><b>-->", "<!--[if IE]><b><![endif]-->", "<!DOCTYPE html>", "<![CDATA[<b>x</b>]]>", "<?xml version=\"1.0\"?>", "<!x>", "</>", "<>", "< a>", "</ a>",
 	"<a", "<a href=\"", "<a href='x", "<!--", "<!-", "<![CDATA[", "<!doctype html SYSTEM \"x\"><b>", "<!--x--!>", "<!-- --!><i>", "</ >", "<?", "<!>", "<%x%>", "</#>", "<a/b/c>", "<b/>", "<!---->", "<!--->",
-	"<img></img>", "<input></input>", "<img id=q></img>", "<hr></hr>", "<area></area>x", "<!--&gt;<script>alert(1)</script>-->", "<!---&gt;<img src=x onerror=alert(1)>-->", "<!--&#62;<iframe src=//evil>-->", "<!--&gt;--><b>", "<!--a--&gt;<i>b-->", "<!--a--!&gt;<i>b-->"}
+	"<img></img>", "<img/></img>", "<input/></input>", "<input></input>", "<img id=q></img>", "<hr></hr>", "<area></area>x", "<!--&gt;<script>alert(1)</script>-->", "<!---&gt;<img src=x onerror=alert(1)>-->", "<!--&#62;<iframe src=//evil>-->", "<!--&gt;--><b>", "<!--a--&gt;<i>b-->", "<!--a--!&gt;<i>b-->"}
 
 var extraNames = []string{"h3", "my-zzz", "x-q", "sx", "tagged", "u", "em", "scrİpt", "K", "a:b", "svg:a", "b\x00", "1a", "a=b", "a\"b", "a'b", "a<b"}
 
@@ -319,6 +319,7 @@ func (g *treeGen) gen(depth int) *node {
 		// a void element written with an end tag (<img></img>): every NON-void element is still
 		// properly opened and closed. Not for br: </br> is read as <br>.
 		n.voidEnd = g.voidEnds && el != "br" && rapid.IntRange(0, 3).Draw(g.t, "voidEnd") == 0
+		n.selfClosed = g.voidEnds && rapid.IntRange(0, 3).Draw(g.t, "voidSelfClosed") == 0 // <img ... /> (and <img/></img>)
 		return n
 	}
 	if rawTextEls[el] {
@@ -356,6 +357,9 @@ func (n *node) write(sb *strings.Builder) {
 	}
 	if n.selfClosed {
 		sb.WriteString("/>")
+		if voidEls[n.el] && n.voidEnd {
+			sb.WriteString("</" + n.el + ">")
+		}
 		return
 	}
 	sb.WriteString(">")
